@@ -3547,12 +3547,12 @@ in_float_range(PyObject *value, PyObject *range_info)
 
     if (low != Py_None) {
         if ((exclude_mask & 1) != 0) {
-            if (PyFloat_AS_DOUBLE(value) <= PyFloat_AS_DOUBLE(low)) {
+            if (!(PyFloat_AS_DOUBLE(value) > PyFloat_AS_DOUBLE(low))) {
                 return 0;
             }
         }
         else {
-            if (PyFloat_AS_DOUBLE(value) < PyFloat_AS_DOUBLE(low)) {
+            if (!(PyFloat_AS_DOUBLE(value) >= PyFloat_AS_DOUBLE(low))) {
                 return 0;
             }
         }
@@ -3560,12 +3560,12 @@ in_float_range(PyObject *value, PyObject *range_info)
 
     if (high != Py_None) {
         if ((exclude_mask & 2) != 0) {
-            if (PyFloat_AS_DOUBLE(value) >= PyFloat_AS_DOUBLE(high)) {
+            if (!(PyFloat_AS_DOUBLE(value) < PyFloat_AS_DOUBLE(high))) {
                 return 0;
             }
         }
         else {
-            if (PyFloat_AS_DOUBLE(value) > PyFloat_AS_DOUBLE(high)) {
+            if (!(PyFloat_AS_DOUBLE(value) <= PyFloat_AS_DOUBLE(high))) {
                 return 0;
             }
         }
